@@ -31,7 +31,7 @@ DBL = "doubles: ChannelDouble (hands out commitments / remainder), StubHasher, R
 kani_unit("fri_verifier", "winter-fri", "fri/src/verifier/mod.rs", "kani/fri_verifier.rs", "verifier", [
     H("fri_verifier_new_contract", ["C05", "C04"], ["FriVerifier::new"],
       "3 commitments, folding 4, degree bounds 63, 31, 27, 19, 62 (two folding steps), 255 (three), 11 (one): a commitment list that does not have one entry per folding step plus one is refused before anything is absorbed; otherwise each commitment is absorbed and exactly one challenge drawn right after it, in order, and stored for its layer; DegreeTruncation(depth) iff (d+1) is not divisible by 4^(depth+1) at a non-final depth",
-      bounded="3 layer commitments, folding factor 4, seven concrete degree bounds; commitments and coin seed symbolic", timeout=600),
+      bounded="3 layer commitments, folding factor 4, seven concrete degree bounds; commitments and coin seed symbolic", timeout=600, tier="thorough"),
     H("fri_verifier_remainder_binding_contract", ["C05", "C03", "C04"], ["FriVerifier::verify", "FriVerifier::verify_generic", "VerifierChannel::read_remainder", "eval_horner"],
       "zero-layer schedule, one query: verify == Ok implies hash_elements(remainder) == the last absorbed commitment and remainder(x_pos) == queried evaluation",
       bounded="zero FRI layers, one query, remainder of 1 symbolic coefficient; commitment, evaluation, position symbolic"),
